@@ -1,44 +1,140 @@
 ------------------------------ MODULE ScopeGen ------------------------------
 (***************************************************************************)
-(* Enumerates the bounded space of Scope.tla: one structure per initial    *)
-(* state (ph = 0); its single successor (ph = 1) is where the invariants   *)
-(* are evaluated, so that the workers share the work.                      *)
-(*  - ScopeMC*.cfg  (Directed = FALSE): every structure, well-scoped or    *)
-(*    not; RT = the checker's walk (Alg) agrees with the semantics;        *)
-(*    GenOK = the directed generator yields exactly the well-scoped ones   *)
-(*    (compared up to cost CompleteUpTo).                                  *)
-(*  - ScopeGen*.cfg (Directed = TRUE): the well-scoped structures, printed *)
-(*    one JSON line each for the replay on the real language services      *)
-(*    (harness: vh scope-run), again under RT.                             *)
+(* Enumerates the bounded space of the binder structures of Scope.tla as   *)
+(* the leftmost derivations of their grammar: a state is a function with   *)
+(* open positions -- `hole` (an expression still to be chosen) and `more`  *)
+(* (the rest of a block: another item, or the final expression) -- and a   *)
+(* step fills the first open position.  Every structure is reached by      *)
+(* exactly one derivation, so the complete states (no open position) are   *)
+(* the structures, each once.  cost = number of scope events: every node   *)
+(* except lit; the function's own block is free; a parameter costs 1.      *)
+(*                                                                         *)
+(* Directed = TRUE: an open position carries the set `env` of names in     *)
+(* scope there; a binder takes a name outside env, a use a name inside --  *)
+(* only well-scoped structures arise (GenSound), and all of them (the      *)
+(* check compares the count with the well-scoped ones of the free space).  *)
+(* Directed = FALSE: any name anywhere -- the space contains the           *)
+(* ill-scoped structures too.                                              *)
+(*                                                                         *)
+(* On every complete state: RT = the checker's walk (Scope!Alg) agrees     *)
+(* with the semantics (accepts iff well-scoped, same use->binding map).    *)
+(* ScopeGen*.cfg print one JSON line per structure for the replay on the   *)
+(* real language services (harness: vh scope-run).                         *)
 (***************************************************************************)
 EXTENDS Scope, Json
 
 CONSTANTS MaxCost,      \* bound on the number of scope events
-          Directed,     \* TRUE: well-scoped structures only
-          CompleteUpTo  \* GenOK compares the two generators up to this cost (0: skip)
+          Directed      \* TRUE: well-scoped structures only
 
-VARIABLES f, ph
+VARIABLES f,            \* [params, body], possibly with open positions
+          left          \* MaxCost - cost of f
 
-Init == f \in Funs(Directed, MaxCost) /\ ph = 0
-Next == ph = 0 /\ ph' = 1 /\ f' = f
+Hole(env) == [k |-> "hole", env |-> env]
+More(env) == [k |-> "more", env |-> env]
+None      == [k |-> "none"]
 
-RT       == ph = 1 => AlgEqSem(f)
-GenSound == (ph = 1 /\ Directed) => WellScoped(Occ(f))
-\* evaluated once, on the smallest structure
-GenOK    == (ph = 1 /\ CompleteUpTo > 0 /\ f.params = <<>> /\ f.body.items = <<>> /\ f.body.fin = Lit)
-              => GenComplete(CompleteUpTo)
+Ext(env, xs) == IF Directed THEN env \cup (xs \ {Wild}) ELSE {}
+BindN(env)   == IF Directed THEN Names \ env ELSE Names
+UseN(env)    == IF Directed THEN env ELSE Names
+
+\* the expression children of a node, in the order in which they are filled
+Kids(t) == CASE t.k = "lam" -> <<"body", "arg">>
+             [] t.k = "mat" -> <<"scrut", "ba", "bb">>
+             [] t.k = "mor" -> <<"scrut", "body">>
+             [] t.k = "ifl" -> <<"scrut", "th", "el">>
+             [] t.k = "let" -> <<"init">>
+             [] t.k \in {"ltup", "lstr"} -> <<"i1", "i2">>
+             [] OTHER -> <<>>
+
+\* the first open position of t (its hole / more record), or None
+RECURSIVE Open(_), OpenSeq(_, _), OpenKids(_, _, _)
+Open(t) ==
+  IF t.k \in {"hole", "more"} THEN t
+  ELSE IF t.k = "blk" THEN LET o == OpenSeq(t.items, 1) IN IF o.k # "none" THEN o ELSE Open(t.fin)
+  ELSE OpenKids(t, Kids(t), 1)
+OpenSeq(s, i) == IF i > Len(s) THEN None
+                 ELSE LET o == Open(s[i]) IN IF o.k # "none" THEN o ELSE OpenSeq(s, i + 1)
+OpenKids(t, ks, i) == IF i > Len(ks) THEN None
+                      ELSE LET o == Open(t[ks[i]]) IN IF o.k # "none" THEN o ELSE OpenKids(t, ks, i + 1)
+
+\* t with its first open position filled by `new`:
+\*   [kind |-> "expr", e |-> expression]              for a hole, or as the final expression of a block
+\*   [kind |-> "item", it |-> item, more |-> More(..)] one more item of a block
+RECURSIVE Plug(_, _), PlugSeq(_, _, _), PlugKids(_, _, _, _)
+Plug(t, new) ==
+  IF t.k = "hole" THEN new.e
+  ELSE IF t.k = "blk" THEN
+         IF OpenSeq(t.items, 1).k # "none" THEN [t EXCEPT !.items = PlugSeq(@, 1, new)]
+         ELSE IF t.fin.k = "more"
+              THEN IF new.kind = "item" THEN [t EXCEPT !.items = Append(@, new.it), !.fin = new.more]
+                   ELSE [t EXCEPT !.fin = new.e]
+              ELSE [t EXCEPT !.fin = Plug(@, new)]
+  ELSE PlugKids(t, Kids(t), 1, new)
+PlugSeq(s, i, new) == IF Open(s[i]).k # "none" THEN [s EXCEPT ![i] = Plug(@, new)] ELSE PlugSeq(s, i + 1, new)
+PlugKids(t, ks, i, new) == IF Open(t[ks[i]]).k # "none" THEN [t EXCEPT ![ks[i]] = Plug(@, new)]
+                           ELSE PlugKids(t, ks, i + 1, new)
+
+\* the items of a block under env (their initialisers are evaluated outside the item's own bindings)
+\* pattern pairs: two distinct names, or a name and a wildcard
+ItemShapes(env) ==
+  { [k |-> "let", x |-> x, init |-> Hole(env)] : x \in BindN(env) \cup {Wild} }
+  \cup { [k |-> kk, x |-> xy[1], y |-> xy[2], i1 |-> Hole(env), i2 |-> Hole(env)] :
+           kk \in {"ltup", "lstr"},
+           xy \in { q \in BindN(env) \X (BindN(env) \cup {Wild}) : q[1] # q[2] } }
+  \cup { [k |-> "lstr", x |-> Wild, y |-> y, i1 |-> Hole(env), i2 |-> Hole(env)] : y \in BindN(env) }
+ItemBinds(it) == IF it.k = "let" THEN {it.x} ELSE {it.x, it.y}
+
+\* what an expression hole under env can become with budget b: [cost, expression]
+ExprChoices(env, b) ==
+  { <<0, Lit>> }
+  \cup (IF b < 1 THEN {} ELSE
+        { <<1, Use(x)>> : x \in UseN(env) }
+        \cup { <<1, [k |-> "lam", x |-> x, body |-> Hole(Ext(env, {x})), arg |-> Hole(env)]>> : x \in BindN(env) }
+        \cup { <<1, [k |-> "mat", scrut |-> Hole(env), x |-> x, ba |-> Hole(Ext(env, {x})),
+                                   y |-> y, bb |-> Hole(Ext(env, {y}))]>> : x \in BindN(env), y \in BindN(env) }
+        \cup { <<1, [k |-> "mor", scrut |-> Hole(env), x |-> x, body |-> Hole(Ext(env, {x}))]>> : x \in BindN(env) }
+        \cup { <<1, [k |-> "ifl", x |-> x, scrut |-> Hole(env), th |-> Hole(Ext(env, {x})), el |-> Hole(env)]>> :
+                 x \in BindN(env) })
+  \* a nested block has at least one item
+  \cup (IF b < 2 THEN {} ELSE
+        { <<2, [k |-> "blk", items |-> <<it>>, fin |-> More(Ext(env, ItemBinds(it)))]>> : it \in ItemShapes(env) })
+
+\* [cost, replacement] for the open position o
+Choices(o, b) ==
+  IF o.k = "hole" THEN { <<c[1], [kind |-> "expr", e |-> c[2]]>> : c \in ExprChoices(o.env, b) }
+  ELSE { <<0, [kind |-> "expr", e |-> Hole(o.env)]>> }
+       \cup (IF b < 1 THEN {} ELSE
+             { <<1, [kind |-> "item", it |-> it, more |-> More(Ext(o.env, ItemBinds(it)))]>> : it \in ItemShapes(o.env) })
+
+\* the parameters: sequences of distinct names of length 0..2
+ParamSeqs == {<<>>} \cup { <<x>> : x \in Names }
+             \cup { <<q[1], q[2]>> : q \in { r \in Names \X Names : r[1] # r[2] } }
+
+Init == \E ps \in { q \in ParamSeqs : Len(q) <= MaxCost } :
+          /\ f = [params |-> ps, body |-> [k |-> "blk", items |-> <<>>, fin |-> More(Ext({}, {ps[j] : j \in DOMAIN ps}))]]
+          /\ left = MaxCost - Len(ps)
+Next == LET o == Open(f.body)
+        IN /\ o.k # "none"
+           /\ \E c \in Choices(o, left) : /\ f' = [f EXCEPT !.body = Plug(@, c[2])]
+                                          /\ left' = left - c[1]
+
+Complete == Open(f.body).k = "none"
+
+\* [RT] on every structure of the space
+RT       == Complete => AlgEqSem(f)
+GenSound == (Complete /\ Directed) => WellScoped(Occ(f))
 \* always TRUE: one line per structure
-Emit == ph = 1 => PrintT(<<"BEHAVIOUR", ToJson([t |-> f, nocc |-> Len(Occ(f))])>>)
+Emit == Complete => PrintT(<<"BEHAVIOUR", ToJson([t |-> f, nocc |-> Len(Occ(f))])>>)
 
-\* vacuity (reported, never failing): the census of the space
-Kinds(occ) == { occ[j].b : j \in DOMAIN occ }
+\* vacuity (reported, never failing): the census of the space --
+\* well-scoped?, a name bound twice (sibling scopes)?, an or-pattern?, number of occurrences
 Census ==
-  ph = 1 =>
+  Complete =>
     LET occ == Occ(f)
         ws  == WellScoped(occ)
-        \* two bindings of one name (sibling scopes) in a well-scoped structure
         reuse == ws /\ \E a, b \in DOMAIN occ : a < b /\ IsBind(occ[a]) /\ IsBind(occ[b]) /\ occ[a].n = occ[b].n
-    IN PrintT(<<"CENSUS", IF ws THEN 1 ELSE 0, IF reuse THEN 1 ELSE 0, IF "alt" \in Kinds(occ) THEN 1 ELSE 0, Len(occ)>>)
+        alt == \E a \in DOMAIN occ : occ[a].b = "alt"
+    IN PrintT(<<"CENSUS", IF ws THEN 1 ELSE 0, IF reuse THEN 1 ELSE 0, IF alt THEN 1 ELSE 0, Len(occ)>>)
 
 \* development aid
 Dbg == RT \/ PrintT(<<"RTFAIL", f, Occ(f), Alg(f), WellScoped(Occ(f))>>)
